@@ -1341,3 +1341,69 @@ func ruleClientRequestShape(p *Prog, r *Out) {
 		r.check(len(vals) == 3 && vals["maxWindow"] == vals["currentWindow"] && vals["maxWindow"] == vals["advertised"], "client advertises the window it accounts", p.pos(fd.Pos()), "maxWindow == currentWindow == SETTINGS_INITIAL_WINDOW_SIZE", fmt.Sprintf("the client's receive-window constants disagree (%v): what it advertises per stream and what its accounting starts from differ", vals))
 	}
 }
+
+func init() {
+	register(&Rule{
+		Name: "huffman-tree-build", Props: []string{"C15", "C03"}, Engine: "FDE", Floor: 4,
+		Doc: "the decode tree is built by descending one table per whole octet of the code beyond the last (creating a table exactly where none exists yet, indexed by the next 8 code bits) and filling, in the last table, every 8-bit index that starts with the remaining bits: 2^(8-len) slots from (code << (8-len)) & 0xff",
+		Run: func(p *Prog, r *Out) {
+			fd := p.decl("(*huffmanNode).add")
+			if fd == nil {
+				r.undecided("(*huffmanNode).add", "?", "no longer resolves")
+				return
+			}
+			r.fn("(*huffmanNode).add")
+			c := fdeCheck{p, r, p.pos(fd.Pos())}
+			var loop *ast.ForStmt
+			for _, s := range fd.Body.List {
+				if fs, ok := s.(*ast.ForStmt); ok && loop == nil {
+					loop = fs
+				}
+			}
+			if loop == nil || loop.Cond == nil {
+				r.bad("descent loop", c.pos, "add has no descent loop")
+				return
+			}
+			c.expr("descend while more than one octet of code is left", loop.Cond, fdeDomain{[]string{"length"}, [][]int64{seq(0, 30)}}, nil, func(e fdeEnv) int64 { return b2i(e["length"] > 8) }, "length > 8", "a code of at most 8 remaining bits is resolved in the current table")
+			var idx ast.Expr
+			created, descends, step := false, false, false
+			for _, s := range loop.Body.List {
+				switch x := s.(type) {
+				case *ast.AssignStmt:
+					if x.Tok == token.SUB_ASSIGN && p.text(x.Lhs[0]) == "length" {
+						if v, ok := p.intConst(x.Rhs[0]); ok && v == 8 {
+							step = true
+						}
+					}
+					if x.Tok == token.DEFINE && p.text(x.Lhs[0]) == "i" {
+						idx = x.Rhs[0]
+					}
+					if p.text(x.Lhs[0]) == "node" && squash(p.text(x.Rhs[0])) == "node.sub[i]" {
+						descends = true
+					}
+				case *ast.IfStmt:
+					if squash(p.text(x.Cond)) == "node.sub[i]==nil" {
+						for _, b := range x.Body.List {
+							if as, ok := b.(*ast.AssignStmt); ok && squash(p.text(as.Lhs[0])) == "node.sub[i]" {
+								created = true
+							}
+						}
+					}
+				}
+			}
+			c.expr("table index is the next 8 code bits", idx, fdeDomain{[]string{"code", "length"}, [][]int64{{0x1ff8, 0x7fffd8, 0xfffffe2, 0x3ffffffc, 0x14}, {0, 5, 8, 15, 20}}}, nil, func(e fdeEnv) int64 { return (e["code"] >> uint(e["length"])) & 0xff }, "uint8(code >> length)", "each level of the tree consumes 8 bits of the code, most significant first")
+			r.check(step && created && descends, "one table per octet, created where missing", p.pos(loop.Pos()), "length -= 8; if sub[i] == nil { sub[i] = new table }; node = sub[i]", "the descent no longer consumes 8 bits per level, creating a sub-table exactly where none exists and moving into it")
+			// the fill
+			var startE, endE ast.Expr
+			ast.Inspect(fd.Body, func(n ast.Node) bool {
+				if as, ok := n.(*ast.AssignStmt); ok && as.Tok == token.DEFINE && len(as.Lhs) == 2 && p.text(as.Lhs[0]) == "start" && len(as.Rhs) == 2 {
+					startE, endE = as.Rhs[0], as.Rhs[1]
+				}
+				return true
+			})
+			dom := fdeDomain{[]string{"code", "n"}, [][]int64{{0, 1, 0x14, 0x1f, 0xfe}, seq(0, 8)}}
+			c.expr("fill starts at the code left-aligned in 8 bits", startE, dom, nil, func(e fdeEnv) int64 { return (e["code"] << uint(e["n"])) & 0xff }, "(code << n) & 0xff", "every 8-bit index whose leading bits are the code must resolve to the symbol")
+			c.expr("fill covers 2^n slots", endE, dom, nil, func(e fdeEnv) int64 { return 1 << uint(e["n"]) }, "1 << n", "the n bits after the code are don't-care")
+		},
+	})
+}
